@@ -60,6 +60,7 @@ def dm_pass(ctx, src, items, worker, env=None):
         for k, v in o.items():
             if k != "id":
                 rec[k] = v
+        rec.setdefault("lens", [])
         it["_rec"] = rec
         by_id[it["id"]] = it
         records.append(rec)
